@@ -217,7 +217,7 @@ pub fn run(ctx: &Ctx, rep: &Report) -> Meta {
     Meta {
         rule: "honest signature x header x ph x disclosure mask: ALL 2^L masks for L = 0..=6 (quick) / 0..=10 (thorough) under both suites and three header/ph classes, \
                plus class-sampled masks (none, all, first, last, all-but-last, evens, only-22, all-but-22, random half/sparse/dense) for L in {7..257, 1000}; \
-               oracle: proof_gen Ok, proof_verify Ok with exactly msgs|D, equal object and Ok after from_bytes(to_bytes()), length = 272 + 32*U; production randomness path; \
+               every L in 7..=72 (quick) / 7..=200 (thorough) with the class masks, the fixed cases under contention, verification repeated on a freshly started thread, half of the cases after a warm-up history; oracle: proof_gen Ok, proof_verify Ok with exactly msgs|D, equal object and Ok after from_bytes(to_bytes()), length = 272 + 32*U; production randomness path; \
                non-trivial = (L, mask) outside the three fixture disclosure sets; evaluations = proof verifications + decode checks"
             .into(),
         assumptions: vec!["index lists handed to the library are ascending and duplicate-free (documented precondition)".into()],
